@@ -206,6 +206,8 @@ class Gen:
             "tests": lambda s, p: s.alloc(HObj(_FuncMap, path="environment.tests"), initial=True),
             "intercepted_binops": lambda s, p: s.alloc(HSet(dom=z3.Const("intercepted_binops", z3.ArraySort(z3.StringSort(), z3.BoolSort())), size=z3.Int("n_ibo"), kk="str"), initial=True),
             "intercepted_unops": lambda s, p: s.alloc(HSet(dom=z3.Const("intercepted_unops", z3.ArraySort(z3.StringSort(), z3.BoolSort())), size=z3.Int("n_iuo"), kk="str"), initial=True),
+            "binop_table": lambda s, p: A.adict(s, "binop_table", "str", "obj"),
+            "unop_table": lambda s, p: A.adict(s, "unop_table", "str", "obj"),
         }
         self.env = st.alloc(HObj(Environment, fields=dict(env_fields or {}), lazy=env_lazy, path="environment", open=True), initial=True)
         self.eval_ctx = st.alloc(HObj(N.EvalContext, fields={"environment": self.env}, lazy={"volatile": "bool", "autoescape": "bool"}, path="eval_ctx"), initial=True)
